@@ -84,6 +84,27 @@ def dumpJson (ipfix : Bool) (c : Cache) : Bytes :=
   [123] ++ kw (str "Cache") ++ [91] ++ joinSep 44 ((List.range 32).map (shardJson ipfix c)) ++ [93, 44] ++
     kw (str "ShardNo") ++ str "32" ++ [125]
 
+/-! ## Dump with the timestamps that are really written
+
+`Dump` writes `"Timestamp":<time.Now().Unix() at the last insert>` (an `int64`) for every entry; the
+correspondence canonicalises it to 0, which is why `dumpJson` prints `0`.  `dumpJsonTs` is the same file with
+an arbitrary timestamp per entry (`ts key`, any integer — a clock before 1970 gives a negative one): the
+crash-point theorems of C11 are about these files.  `dumpJsonTs_zero` (in `Vflow.Proofs.JsonPrefix`):
+`dumpJson ipfix c = dumpJsonTs ipfix (fun _ => 0) c`. -/
+
+def entryJsonTs (ipfix : Bool) (ts : Nat → Int) (e : Nat × Template) : Bytes :=
+  34 :: natDigits e.1 ++ [34, 58] ++ [123] ++ kw (str "Template") ++ templateJson ipfix e.2 ++ [44] ++
+    kw (str "Timestamp") ++ intDigits (ts e.1) ++ [125]
+
+def shardJsonTs (ipfix : Bool) (ts : Nat → Int) (c : Cache) (i : Nat) : Bytes :=
+  [123] ++ kw (str "Templates") ++ [123] ++
+    joinSep 44 ((sortEntries (c.filter fun e => e.1 % 32 = i)).map (entryJsonTs ipfix ts)) ++ [125, 125]
+
+/-- `json.Marshal(memCacheDisk{m, 32})` where the entry with key `k` carries the timestamp `ts k` -/
+def dumpJsonTs (ipfix : Bool) (ts : Nat → Int) (c : Cache) : Bytes :=
+  [123] ++ kw (str "Cache") ++ [91] ++ joinSep 44 ((List.range 32).map (shardJsonTs ipfix ts c)) ++ [93, 44] ++
+    kw (str "ShardNo") ++ str "32" ++ [125]
+
 /-- the document `json.Unmarshal` produces for a dump (`docOf`): used to state save/load identity -/
 def docOf (c : Cache) : Doc :=
   ⟨32, (List.range 32).map fun i => some (some (sortEntries (c.filter fun e => e.1 % 32 = i)))⟩
